@@ -125,7 +125,71 @@ def mutate_call(r, c, log):
     return d
 
 
+def interleaved_log():
+    """16 messages, four types interleaved (4-5 of each), one source: per-type and cross-type first/last N differ"""
+    seq = ['POSE', 'POSE_AUX', 'GNSS_INFO', 'EVENT_NOTIFICATION', 'POSE', 'POSE', 'POSE_AUX', 'GNSS_INFO',
+           'EVENT_NOTIFICATION', 'POSE_AUX', 'GNSS_INFO', 'POSE', 'EVENT_NOTIFICATION', 'GNSS_INFO', 'POSE_AUX', 'POSE']
+    return [{'t': t, 'p1': None if t == 'EVENT_NOTIFICATION' else T0 + i // 3, 'src': 0, 'sys': i} for i, t in enumerate(seq)]
+
+
+def partial_invalidation_histories():
+    """structured family A ; B ; A: A reads a type set S with some parameters, B replaces the cache entries of a
+    proper subset S' of S (same types, other parameters), then A again - the second A meets a partially valid cache.
+    Several S / S' / maxima of both signs / post-processing choices."""
+    out = []
+    sets = [['POSE', 'POSE_AUX'], ['POSE', 'POSE_AUX', 'GNSS_INFO'], ['POSE', 'POSE_AUX', 'EVENT_NOTIFICATION'],
+            ['POSE_AUX', 'GNSS_INFO', 'EVENT_NOTIFICATION'], None]
+    a_params = [{}, {'num': True, 'keep': True}, {'num': True}, {'align': 1, 'keep': True}, {'p1': True}, {'idx': True}]
+    b_params = [{}, {'num': True}, {'max': 1}, {'tr': [1, 4, False]}]
+    for S in sets:
+        full = S if S is not None else TYPES
+        subs = [[t] for t in full[:3]] + ([full[:2]] if len(full) > 2 else []) + ([full[1:]] if len(full) > 2 else [])
+        for Sp in subs:
+            for n in (None, 1, -1, 2, -2, 3, -3, 5, -5):
+                for ai, ap in enumerate(a_params):
+                    if n is None and ai not in (0, 1, 3):
+                        continue
+                    a = call(types=S, max=n, **ap)
+                    for bi, bp in enumerate(b_params):
+                        if (ai + bi + (n or 0)) % 2 and not (ai == 0 and bi == 0):
+                            continue          # thin the product; the plain A / plain B pair is always kept
+                        b = call(types=Sp, **bp)
+                        if {k: b[k] for k in b if k != 'types'} == {k: a[k] for k in a if k != 'types'}:
+                            b = call(types=Sp, idx=not a['idx'], **{k: v for k, v in bp.items()})
+                        out.append([a, b, dict(a)])
+    return out
+
+
+def gen_aba(r, log):
+    """random member of the A ; partial invalidation ; A family"""
+    a = gen_call(r, log)
+    a['order'] = False; a['ign'] = False
+    if a['types'] is None or len([t for t in a['types'] if t != UNSUPPORTED]) < 2:
+        a['types'] = sorted(r.sample(TYPES, r.choice([2, 3, 3, 4])), key=TYPES.index)
+        a['atypes'] = None
+    if r.random() < 0.8:
+        a['max'] = r.choice([1, -1, 2, -2, 3, -3, 4, -4])
+    base = [t for t in a['types'] if t != UNSUPPORTED]
+    sp = sorted(r.sample(base, r.randint(1, len(base) - 1)), key=TYPES.index)
+    b = dict(a); b['types'] = sp; b['atypes'] = None
+    k = r.choice(['max', 'num', 'keep', 'p1', 'idx', 'tr', 'align'])
+    if k == 'max':
+        b['max'] = None if a['max'] is not None else 2
+    elif k == 'tr':
+        b['tr'] = None if a['tr'] is not None else [1, 3, False]
+    elif k == 'align':
+        b['align'] = (a['align'] + 1) % 3
+    else:
+        b[k] = not a[k]
+    return [a, b, dict(a)]
+
+
 def gen_history(r, log, length):
+    if length >= 3 and r.random() < 0.3:
+        h = gen_aba(r, log)
+        while len(h) < length:
+            h.insert(r.randrange(len(h)), mutate_call(r, r.choice(h), log)) if r.random() < 0.5 else h.append(dict(r.choice(h)))
+        return h
     h = [gen_call(r, log)]
     while len(h) < length:
         x = r.random()
